@@ -44,7 +44,10 @@ def hops(s, d):
 
 def run_chunk(args):
     addrs, kinds, jobs, seed, jitter, frag = args
-    nodes = [dict(addr=a, kind=kinds[a], opts=({} if frag else {"fragmentation": False})) for a in addrs]
+    # every other chunk runs its full nodes with ret_sys_msg on (as every mesh node does): user messages and their fragments
+    # are still queued / re-assembled, only other system types are reported instead
+    retsys = {"ret_sys_msg": True} if (seed * 2654435761 >> 11) & 1 else {}
+    nodes = [dict(addr=a, kind=kinds[a], opts=dict(retsys, **({} if frag else {"fragmentation": False}))) for a in addrs]
     ns = net.NetSim(nodes, seed=seed, jitter=jitter)
     name = {nd["addr"]: nd["name"] for nd in nodes}
     js = []
@@ -53,7 +56,7 @@ def run_chunk(args):
         js.append(net.job_write(name[s], d, t, msg, chk=["C05", "C07"]))
     tr = ns.run(js)
     tr["meta"] = dict(addrs=[oct(a) for a in addrs], kinds={oct(a): k for a, k in kinds.items()}, seed=seed, jitter=jitter,
-                      frag=frag, jobs=[[oct(s), oct(d), t, n] for (s, d, t, n) in jobs])
+                      frag=frag, ret_sys_msg=bool(retsys), jobs=[[oct(s), oct(d), t, n] for (s, d, t, n) in jobs])
     return tr
 
 
@@ -214,7 +217,7 @@ def run(chk):
             w = t["wins"][v["at"] - 1]
             key = classify(w, v["clause"]) if v["clause"].startswith("C05") else "%s:%s" % (v["clause"], v["detail"])
             c = w["call"]
-            wit = dict(kind="net", meta={k: t["meta"][k] for k in ("addrs", "kinds", "seed", "jitter", "frag")},
+            wit = dict(kind="net", meta={k: t["meta"][k] for k in ("addrs", "kinds", "seed", "jitter", "frag", "ret_sys_msg")},
                        job=[oct(c["src"]), oct(c["to"]), c["type"], len(c["msg"])], ret=w["ret"], ndeq=len(w["deqs"]))
             found.setdefault(key, []).append((wit, v))
     for key, items in found.items():
